@@ -49,7 +49,7 @@ def check(run):
             sch_lines.append("sch " + r["plain"][0][0].hex()); sch_idx.append(si)
     sch = dict(zip(sch_idx, G.run_driver(sch_lines))) if run.driver_ok else {}
     for si, (s, r) in enumerate(zip(sessions, res)):
-        run.case(s[0][:300], True)
+        run.case(s[0][:300], True, key=s[0])
         run.count("parameter sets:%d" % len(s[1].bps))
         bads = E.judge_files(s, r, tag="preamble")
         E.record_failures(run, s, bads, seen)
